@@ -283,3 +283,45 @@ func VerifC20_Malformed() {
 	vAssert(len(h.calls) == 0, "C20.unknown-event-not-applied")
 	vReach("end")
 }
+
+// VerifC20_ConcurrentOps: the op packs of two tasks replicating to one target are handled by
+// the same writer concurrently. Task A's request is held inside the writer (at its readiness
+// probe, before the downstream request is built and sent) while task B's pack is handled
+// completely; afterwards each downstream request must still carry ITS OWN pack's timestamp.
+func VerifC20_ConcurrentOps() {
+	kinds := []string{"CreateIndex", "DropIndex", "LoadCollection", "ReleaseCollection", "Flush"}
+	ka, kb := kinds[vChoice("a.op", len(kinds))], kinds[vChoice("b.op", len(kinds))]
+	vAssume(ka != kb)
+	sa := &wSrc{db: "db", coll: "ca", index: "i", field: "f"}
+	sb := &wSrc{db: "db", coll: "cb", index: "i", field: "f"}
+	h := newWHandler()
+	w := wNewWriter(h, &wMeta{}, nil, "milvus", "")
+	tsA, tsB := vU64("a.ts"), vU64("b.ts")
+	vAssume(vAnd(vAnd(tsA >= 1, tsA < 1<<62), vAnd(tsB >= 1, tsB < 1<<62)))
+	gate, held := make(chan struct{}), false
+	h.onResult = func(kind string, n int) error {
+		if kind == "DescribeCollection" && !held {
+			held = true
+			<-gate // task A's readiness probe is in flight
+		}
+		return nil
+	}
+	doneA := make(chan error, 1)
+	go func() {
+		_, err := w.HandleOpMessagePack(context.Background(), c20Pack(tsA, tsA, wBuildOp(ka, sa, tsA)))
+		doneA <- err
+	}()
+	vQuiesce()
+	vAssert(held, "C20.concurrent.first-op-is-waiting-inside-the-writer")
+	_, errB := w.HandleOpMessagePack(context.Background(), c20Pack(tsB, tsB, wBuildOp(kb, sb, tsB)))
+	close(gate)
+	errA := <-doneA
+	vAssert(errA == nil && errB == nil, "C20.concurrent.both-ops-accepted")
+	ca, cb := h.callsOf(ka), h.callsOf(kb)
+	vAssert(len(ca) == 1 && len(cb) == 1, "C20.concurrent.exactly-one-request-per-op")
+	if len(ca) == 1 && len(cb) == 1 {
+		c20Stamp(ca[0].base, tsA, "C20.concurrent.first-op")
+		c20Stamp(cb[0].base, tsB, "C20.concurrent.second-op")
+	}
+	vReach("end")
+}
